@@ -181,3 +181,5 @@ def run(ctx):
         if tv.pop is not None and tv.dedup is not None:
             rr.r_loop(ctx, tv)
             rr.r_scoring(ctx, tv)
+    from props import C01
+    C01.rules(ctx)  # "still satisfy C01": its structural clauses are re-checked here
